@@ -322,3 +322,5 @@ w("C12", "column labels hand-quoted in the generated script again", "pandera/io/
   "    column_str = \", \".join(f\"{k!r}: {v}\" for k, v in columns.items())", "    column_str = \", \".join(f\"'{k}': {v}\" for k, v in columns.items())")
 w("C12", "index name hand-quoted again", "pandera/io/pandas_io.py",
   "            name=repr(properties[\"name\"]),", "            name=(\"None\" if properties[\"name\"] is None else f\"\\\"{properties['name']}\\\"\"),")
+w("C08", "polars container fills defaults for absent columns again", BL + "container.py",
+  "            if not col_schema.regex and col_schema.name not in lf_columns:\n                continue\n            backend = col_schema.get_backend(check_obj)", "            backend = col_schema.get_backend(check_obj)")
